@@ -548,6 +548,24 @@ theorem c16_ShardStateUnsplit_roundtrip : Lawful shardStateUnsplit := by unfold 
 @[instance]
 theorem c16_ShardState_roundtrip : Lawful shardState := by unfold shardState shardStateAlts; infer_instance
 
+/-- The spec encoding is unambiguous: two values with the same encoding (bits and refs) are the same value — so
+    "the field values an independent decoder reads" from an encoding are uniquely determined. -/
+theorem c16_enc_injective (c : Codec) [h : Lawful c] (v₁ v₂ : Val) (f : Frag)
+    (h₁ : c.enc v₁ = some f) (h₂ : c.enc v₂ = some f) : v₁ = v₂ := by
+  have a := h.law v₁ f h₁ Frag.nil
+  have b := h.law v₂ f h₂ Frag.nil
+  rw [a] at b
+  injection b with b
+  injection b
+
+/-- non-vacuity of `c16_enc_injective`'s hypotheses: two different ShardIdent values have different encodings -/
+example : shardIdent.enc (.record [("shard_pfx_bits", .int 3), ("workchain_id", .int (-1)), ("shard_prefix", .int 5)]) ≠
+    shardIdent.enc (.record [("shard_pfx_bits", .int 3), ("workchain_id", .int 0), ("shard_prefix", .int 5)]) := by
+  intro h
+  have h' := congrArg (fun o => o.map (·.bits)) h
+  revert h'
+  decide
+
 /-! ### non-vacuity: concrete values meet the hypothesis `enc v = some _` (and decode back, trailer left over) -/
 
 /-- ShardIdent: a concrete value is encodable -/
